@@ -845,9 +845,13 @@ class PiecewiseExponentialCoalescentGrid(Distribution):
         )
 
         # log population size at the end of each coalescent interval
+        # (indices_internals follows the sorted events: so must the heights)
+        internal_heights_sorted = grid_heights_sorted[event_mask_sorted == -1].reshape(
+            internal_heights.shape
+        )
         log_pop_sizes = log_pop_size_grid.gather(-1, indices_internals) - growth.gather(
             -1, indices_internals
-        ) * (internal_heights - grid0.gather(-1, indices_internals))
+        ) * (internal_heights_sorted - grid0.gather(-1, indices_internals))
 
         # Integrate 1/N(t) over each interval
         growth_intervals = growth.gather(-1, indices_grid_heights)
